@@ -7,10 +7,11 @@ cd /verif
 git fetch -q $SRC HEAD
 BASE=$(git merge-base HEAD FETCH_HEAD)
 echo "== $N: base $(git rev-parse --short $BASE) their head $(git rev-parse --short FETCH_HEAD)"
-git diff --name-status $BASE FETCH_HEAD | while read st f; do
+git diff --no-renames --name-status $BASE FETCH_HEAD | while read st f; do
   case "$f" in evidence/*|MANIFEST.json|harness/go.mod|known_findings.json|seeded/*) echo "  skip     $f"; continue;; esac
   case "$st" in
     A|M) mkdir -p "$(dirname "$f")"; git show FETCH_HEAD:"$f" > "$f"; echo "  $st copied $f";;
+    D) rm -f "$f"; echo "  D removed $f";;
     *) echo "  $st $f (ignored)";;
   esac
 done
